@@ -84,6 +84,9 @@ class Impl:
             if k == 'delitem':
                 del c[op[1]]
                 return (0, None)
+            if k == 'delslice':
+                del c[op[1]:op[2]]
+                return (0, None)
             if k == 'extend':
                 how = op[2]
                 vals = [self.v(x) for x in op[1]]
@@ -120,6 +123,21 @@ class Impl:
             except IndexError:
                 out.append(NONE_TOK)
         return out
+
+    def slices(self):
+        """positional access by slice (implementation vs plain list only; the Coq model has integer positions)"""
+        c = self.c
+        res = []
+        for sl in SLICES:
+            try:
+                res.append([self.t(x) for x in c[sl]])
+            except Exception as e:  # noqa
+                res.append(type(e).__name__)
+        return res
+
+
+SLICES = [slice(None, None, -1), slice(None, None, 2), slice(1, None), slice(None, -1), slice(None, None, None),
+          slice(1, None, 2), slice(-2, None), slice(None, None, -2), slice(0, 2)]
 
 
 def spec_apply(L, op, unique):
@@ -158,6 +176,9 @@ def spec_apply(L, op, unique):
             return ('ok', None)
         if k == 'delitem':
             del L[op[1]]
+            return ('ok', None)
+        if k == 'delslice':
+            del L[op[1]:op[2]]
             return ('ok', None)
         if k == 'extend':
             for x in op[1]:
@@ -260,6 +281,31 @@ def explore(out, model, A, B, feats, decl, univ, maxlen, thorough, stats):
     while queue:
         key = queue.popleft()
         path = seen[key]
+        if not unique:
+            # removal by slice (`del c[i:j]`) on list-based collections: implementation vs plain list only (the Coq
+            # model has integer positions); the resulting state is not expanded further
+            n0 = key[0] if key else 0
+            for i in range(0, n0 + 1):
+                for j in range(i + 1, n0 + 2):
+                    impl = Impl(A, B, feat, kind, univ, objs)
+                    L = []
+                    for p in path:
+                        impl.apply(p)
+                        spec_apply(L, p, unique)
+                    pre = list(L)
+                    try:
+                        r = impl.apply(('delslice', i, j))
+                    except Exception as e:  # noqa
+                        r = (9, type(e).__name__)
+                    spec_apply(L, ('delslice', i, j), unique)
+                    stats['transitions'] += 1
+                    stats['ops']['delslice'] = stats['ops'].get('delslice', 0) + 1
+                    o, so = impl.obs(), spec_obs(L, univ)
+                    if r[0] != 0 or o != so:
+                        out.fail(signature('slice-removal', ('delslice', i, j), decl, pre),
+                                 f'del c[{i}:{j}] from {pre}: impl {r} {o[1:1 + o[0]]} vs list {so[1:1 + so[0]]}',
+                                 {'decl': {'kind': kind, 'ordered': ordered, 'unique': unique}, 'universe': univ,
+                                  'path': [list(map(_j, p)) for p in path], 'op': ['delslice', i, j]})
         # current length from a replay
         for op in all_ops(univ, key[0] if key else 0, unique, thorough):
             impl = Impl(A, B, feat, kind, univ, objs)
@@ -290,6 +336,11 @@ def explore(out, model, A, B, feats, decl, univ, maxlen, thorough, stats):
                 clause = 'iteration-order'
             elif o != so:
                 clause = 'index=position'
+            if not clause:
+                isl, ssl = impl.slices(), [list(L[sl]) for sl in SLICES]
+                if isl != ssl:
+                    clause = 'slice-access'
+                    o, so = isl, ssl
             if clause:
                 # the pre-state was consistent (failing states are never expanded): op is the culprit
                 out.fail(signature(clause, op, decl, pre), f'{clause}: impl {o} vs list {so}', case)
